@@ -37,7 +37,14 @@ AGGS = ["stddev", "quantile", "min", "max", "covariance", "corrcoef"]
 
 @st.composite
 def cases(draw, tier):
-    spec = draw(Q.cube_specs(max_nd=2, min_nd=0, max_n=30, tails=((), (), (), (2,))))
+    bigcase = draw(st.integers(0, 7)) == 0
+    if bigcase:
+        # boundary extents: category ids at the top of / beyond the narrow coordinate dtypes the array cube
+        # works in (uint8 up to 255 cells, uint16 up to 65535), alone or next to a second small dimension
+        spec = draw(Q.cube_specs(max_nd=draw(st.sampled_from([1, 1, 2])), min_nd=1, max_n=20, min_n=4, big_ok=True,
+                                 big_extents=[255, 255, 256, 257, 65535, 65535, 65536], tails=((), (), (2,))))
+    else:
+        spec = draw(Q.cube_specs(max_nd=2, min_nd=0, max_n=30, tails=((), (), (), (2,))))
     N = spec["N"]
     agg = draw(st.sampled_from(AGGS))
     spec["agg"] = agg
@@ -68,6 +75,12 @@ def cases(draw, tier):
             Q.weight_specs(N, scalar_ok=False, zero_ok=False))
     else:
         spec["fact"] = draw(Q.fact_specs(N, dyadic=dyadic))
+        if bigcase and spec["fact"]["K"] is None and N:
+            # several fact columns: per-column work multiplies the cell numbers
+            K = draw(st.sampled_from([2, 3]))
+            f = spec["fact"]
+            spec["fact"] = dict(f, K=K, values=(f["values"] * K)[: N * K], valid=(f["valid"] * K)[: N * K],
+                                junk=(f["junk"] * K)[: N * K])
         spec["weights"] = draw(Q.weight_specs(N, scalar_ok=False, zero_ok=(agg == "stddev")))
     spec["prob"] = draw(st.one_of(st.sampled_from([0.0, 1.0, 0.5, 0.25, 0.75]),
                                   st.floats(0.0, 1.0, allow_nan=False)))
@@ -366,6 +379,8 @@ def check(case, rec):
              "fact=%s/%s/K=%s" % (case["fact"]["dtype"], case["fact"]["form"], K))
     for fl in flags:
         rec.note(fl)
+    if any(d.get("big") for d in case["dims"]):
+        rec.note("boundary extent")
     if flags & {"cell with exactly one valid row", "columns with different missing patterns",
                 "weighted quantile: missing value in a populated cell", "partly missing column"}:
         rec.nontrivial()
